@@ -256,6 +256,11 @@ func (ex *Exec) callFunc(p *Path, fn *types.Func, recv *Value, args []Value, cal
 		return ex.applyContract(p, c, fn, recv, args, pos)
 	}
 	if fi := ex.w.Funcs[full]; fi != nil && fi.Decl.Body != nil {
+		if fn.Type().(*types.Signature).Results().Len() == 0 && !ex.traceEvents && !ex.safety && !ex.emittedPkg(fn) && ex.bodyIsHeapPure(fi, 0) && !ex.writesThroughParams(fi) {
+			// no results and no write to modelled state: the call cannot influence any functional obligation
+			ex.skipped[key] = true
+			return nil
+		}
 		if ex.canInline(full) {
 			if vals, ok := ex.tryInline(p, fi, recv, args, pos); ok {
 				return vals
@@ -885,4 +890,21 @@ func (ex *Exec) havocObject(p *Path, v Value, pos token.Pos) {
 		ex.heapWrite(p, ex.heapKey(named, f.Name()), f.Type(), v.T, fv.T)
 		ex.assumeFact(p, ex.c.typeInvariant(Value{"(select " + ex.heapArr(p, ex.heapKey(named, f.Name()), ex.c.SortOf(f.Type())) + " " + v.T + ")", f.Type()}))
 	}
+}
+
+// writesThroughParams: does the function assign through a pointer parameter (e.g. *contexts = append(...))?
+func (ex *Exec) writesThroughParams(fi *FuncInfo) bool {
+	found := false
+	ast.Inspect(fi.Decl.Body, func(n ast.Node) bool {
+		if as, ok := n.(*ast.AssignStmt); ok {
+			for _, l := range as.Lhs {
+				switch l.(type) {
+				case *ast.StarExpr:
+					found = true
+				}
+			}
+		}
+		return true
+	})
+	return found
 }
